@@ -237,9 +237,9 @@ class Output(BaseOutput):
         self.nc.variables["time"][self.local_record_count] = self.timer.nctime()
 
         if self.layout == "dense":
-            # Fill out state.alive, False for unborn particles
-            has_value = np.full(len(state), False)
-            has_value[: len(state)] = state.alive
+            # The column of a particle is its identifier (also after a warm
+            # start or a compactify, when it differs from the position in the state)
+            has_value = state.pid[state.alive]
             for var in self.instance_variables:
                 self.nc.variables[var][self.local_record_count, has_value] = (
                     self.instance_values(state, var)[state.alive]
